@@ -15,11 +15,17 @@
 
    Styles do not influence layout: every style is the null token.  The tree /repo is modelled with
    the fix: commits of C07 (leading rows, expand-exact) and C08 (Rule / Panel title not re-wrapped)
-   applied, i.e. Table.calc_widths false false, render_table false, rule_lines false, panel_lines false.
+   applied, i.e. Table.calc_widths_x FLEXMIN false false, render_table false, rule_lines false, panel_lines false;
+   FLEXMIN = gen/BoxChars.FLEXMIN_MEASURED is read from the tree under check (fixes/C07_ratio_column_minimum.diff:
+   a ratio column is guaranteed its measured minimum), so the model follows whichever tree is checked.
    `fix_d20` (cfg): false = Text.__rich_measure__ as found in 9.10.0 (str.splitlines), true = the
    proposed repair (split on "\n", the separator Text.wrap uses). *)
 From RichModel Require Import Prelude Cells Segments Ratio Frames.
 From RichModel Require Wrap Table.
+From RichGen Require BoxChars.
+
+(* fixes/C07_ratio_column_minimum.diff applied to the tree under check? (regenerated T3 fact) *)
+Definition FLEXMIN : bool := BoxChars.FLEXMIN_MEASURED.
 
 (* ---------------------------------------------------------------- configuration, inherited options *)
 Record cfg := mkCfg {
@@ -242,7 +248,7 @@ Definition table_measure (t : tblspec) (cells : list (list child)) (w : Z) : Z *
   else
     let cols := table_tcols t cells in
     let extra := Table.extra_width o (length cols) in
-    match Table.calc_widths false false o cols (w - extra) with
+    match Table.calc_widths_x FLEXMIN false false o cols (w - extra) with
     | Ok ws =>
         let mw := sumZ ws in
         let ms := map (fun '(i, c) => Table.measure_column o i c mw) (Table.indexed 0 cols) in
@@ -263,7 +269,7 @@ Definition annotation (s : str) (ro : ropts) (tw : Z) : list segZ :=
 Definition table_stream (t : tblspec) (cells : list (list child)) (ro : ropts) (W : Z) : list segZ :=
   let o := tb_o t in
   let cols := table_tcols t cells in
-  match Table.table_widths false false o cols W with
+  match Table.table_widths_x FLEXMIN false false o cols W with
   | Ok ws =>
       let tw := sumZ ws + Table.extra_width o (length cols) in
       match Table.render_table false o (tb_boxc t) ws (table_rows t cells) with
@@ -377,7 +383,7 @@ Definition res_fail {A} (r : res A) : option Z :=
 
 Definition table_fail (t : tblspec) (cells : list (list child)) (W : Z) : option Z :=
   let cols := table_tcols t cells in
-  match Table.table_widths false false (tb_o t) cols W with
+  match Table.table_widths_x FLEXMIN false false (tb_o t) cols W with
   | Ok ws => res_fail (Table.render_table false (tb_o t) (tb_boxc t) ws (table_rows t cells))
   | r => res_fail r
   end.
@@ -404,7 +410,7 @@ Fixpoint fails (cf : cfg) (r : R) (ro : ropts) (W : Z) {struct r} : option Z :=
       match table_fail t cells W with
       | Some k => Some k
       | None =>
-          match Table.table_widths false false (tb_o t) (table_tcols t cells) W with
+          match Table.table_widths_x FLEXMIN false false (tb_o t) (table_tcols t cells) W with
           | Ok ws =>
               first_some (map (fun row =>
                                  (fix go (row : list R) (wc : list (Z * colspec)) : option Z :=
@@ -559,7 +565,6 @@ Fixpoint wrappable (r : R) : bool :=
       let o := tb_o t in
       nonneg4 (Table.o_pad o) && (0 <=? Table.o_leading o)
       && match Table.o_width o with None => true | Some _ => false end
-      && match Table.o_minw o with None => true | Some _ => false end
       && match tb_cols t with [] => false | _ => true end
       && Bool.eqb (Table.o_box o) (match tb_boxc t with Some _ => true | None => false end)
       && forallb col_ok (tb_cols t)
